@@ -50,7 +50,9 @@ contract(Contract(
             "len_fn": "callable", "is_markdown": "bool"},
     types={"lines": "list[str]", "current_line": "list[str]", "outw": "list[str]", "cuts": "list[int]",
            "ends": "list[int]", "lead": "list[bool]", "cs": "int", "nlead": "int", "word": "str",
-           "first_line": "bool", "current_width": "int"},
+           "first_line": "bool", "current_width": "int", "words": "list[str]"},
+    result_alias=["lines"],
+    setup_callee=lambda ex, env, bound: w_setup(ex),
     setup=w_setup,
     shards=14,
     requires={"cols": "initial_column >= 0 and subsequent_offset >= 0"},
@@ -119,5 +121,54 @@ contract(Contract(
         ("    # Add the last line if necessary.\n    if current_line:", "    if False:", ["C05"], ["post[lossless.tiling"]),
         ("                lines.append(line)\n                first_line = False", "                first_line = False",
          ["C05"], ["inv-preserve[loop0"]),
+    ],
+))
+
+
+# --------------------------------------------------------------------------- wrap_paragraph
+WP_DEFS = {
+    "single(k)": "wit('wrap_paragraph_lines', 'ends')[k] - wit('wrap_paragraph_lines', 'cuts')[k] == 1",
+    "prefix(k)": "ite(k == 0, ite(initial_indent != '' and initial_column == 0, initial_indent, ''), subsequent_indent)",
+}
+
+contract(Contract(
+    target=M + ":wrap_paragraph",
+    props=["C05"],
+    params={"text": "str", "width": "int", "initial_indent": "str", "subsequent_indent": "str", "initial_column": "int",
+            "replace_whitespace": "bool", "drop_whitespace": "bool", "word_splitter": "opt[ref:WordSplitter]",
+            "len_fn": "callable", "is_markdown": "bool"},
+    types={"lines": "list[str]", "wl": "list[str]"},
+    setup=w_setup,
+    requires={"col": "initial_column >= 0"},
+    calls={
+        "wrap_paragraph_lines": Callee("contract", ret="list[str]", target=M + ":wrap_paragraph_lines"),
+        "len_fn": Callee("uf", ret="int", sig=["s"]),
+        "denormalize_adjacent_tags": Callee("uf", ret="str", sig=["text"]),
+    },
+    at_call={"wrap_paragraph_lines": {
+        "text": "arg_text == text", "width": "arg_width == width",
+        "initial_column": "arg_initial_column == initial_column + len_fn(initial_indent)",
+        "subsequent_offset": "arg_subsequent_offset == len_fn(subsequent_indent)",
+        "replace_whitespace": "arg_replace_whitespace == replace_whitespace",
+        "drop_whitespace": "arg_drop_whitespace == drop_whitespace",
+        "splitter": "arg_splitter == word_splitter", "is_markdown": "arg_is_markdown == is_markdown",
+    }},
+    ghost={"wl": "[]"},
+    hooks=[("after", "assign:lines", "wl = list(lines)")],
+    defs=WP_DEFS,
+    ensures={
+        # C05: every line carries the configured first-line or continuation indent, nothing else changes
+        "count": "len(lines) == len(wl)",
+        "indents": "all(lines[k] == prefix(k) + wl[k] for k in range(len(lines)))",
+        "joined": "result == call('denormalize_adjacent_tags', joinr('\\n', lines, 0, len(lines)))",
+        # C05 width bound at this level: a continuation line, indent included, fits unless it is a single word
+        # (cuts/ends: the word spans of W's postcondition)
+        "bounded.rest": "implies(width > 0, all(implies(k >= 1, len_fn(lines[k]) <= width or single(k)) for k in range(len(lines))))",
+    },
+    canaries=[
+        ("subsequent_offset=len_fn(subsequent_indent)", "subsequent_offset=len_fn(initial_indent)", ["C05"], ["call[", "post[bounded"]),
+        ("lines[1:] = [subsequent_indent + line for line in lines[1:]]", "lines[1:] = [initial_indent + line for line in lines[1:]]", ["C05"], ["post[indents"]),
+        ("initial_column=initial_column + len_fn(initial_indent)", "initial_column=initial_column", ["C05"], ["call["]),
+        ('result = "\\n".join(lines)', 'result = " ".join(lines)', ["C05"], ["post[joined"]),
     ],
 ))
